@@ -14,7 +14,8 @@
    spellings are decided on the implementation by the spelling oracle. *)
 From Coq Require Import List NArith ZArith Arith Bool.
 From Coq Require Import Permutation.
-From PG Require Import Common.Strs Ring.Peg Ring.Reader Ring.Reader_proofs Graph.Mol Graph.Match Graph.Match_proofs Graph.Embed Graph.Embed_inst Graph.Scheme Graph.Scheme_proofs Graph.Centres_proofs Graph.Centres_equiv.
+From PG Require Import Common.Strs Ring.Peg Ring.Reader Ring.Reader_proofs Graph.Mol Graph.Match Graph.Match_proofs Graph.Embed Graph.Embed_inst Graph.Scheme Graph.Scheme_proofs Graph.Centres_proofs Graph.Centres_equiv Graph.Remap_proofs Graph.Descr_equiv.
+From Coq Require QArith.
 Import ListNotations.
 
 (* ---------- matching commutes with renumbering ---------- *)
@@ -95,3 +96,24 @@ Proof. exact benzene_any_ring_spelling. Qed.
    tuple does not create a new count *)
 Theorem C03_same_set_perm : forall a b, same_set a b = true -> same_set b a = true.
 Proof. intros a b H. unfold same_set in *. apply andb_true_iff in H. destruct H as [H1 H2]. rewrite H1, H2. reflexivity. Qed.
+
+(* ---------- the whole descriptor dictionary is numbering independent ---------- *)
+(* what GetDescriptors returns is descriptors_of on the prepared (aromatised) graph *)
+Theorem C03_descriptors_is : forall sch sssr m0 nm, assign_centres sch (aromatize sssr m0) = SOk nm ->
+  get_descriptors sch sssr m0 = SOk (descriptors_of sch (aromatize sssr m0) nm).
+Proof. intros sch sssr m0 nm H. unfold get_descriptors. rewrite H. reflexivity. Qed.
+
+(* for every scheme whose patterns and descriptors are reader-produced fragments without molecule prefix and whose remap
+   table is chain free (the finite theorem C02_all_schemes_ok for the shipped ones), every well-formed prepared graph m
+   and every renumbering phi (inverse psi): the descriptor dictionary of the renumbered graph is the same map.  Groups,
+   correction descriptors, remaps and the final groups.update(descriptors) are all covered. *)
+Theorem C03_descriptors_renumbering : forall m phi psi sch, wf_mol m -> wf_rings m ->
+  (forall i, i < natom m -> phi i < natom m /\ psi (phi i) = i) ->
+  (forall k, k < natom m -> psi k < natom m /\ phi (psi k) = k) ->
+  (forall p, In p (s_patterns sch) -> good_frag (p_frag p)) ->
+  (forall ds, In ds (s_descr sch) -> good_frag (d_frag ds)) ->
+  chain_free (s_remaps sch) ->
+  forall nm NM, assign_centres sch m = SOk nm -> assign_centres sch (rename_mol phi psi m) = SOk NM ->
+  forall k, QArith_base.Qeq (dict_get (descriptors_of sch (rename_mol phi psi m) NM) k) (dict_get (descriptors_of sch m nm) k).
+Proof. intros m phi psi sch W R P1 P2. exact (descriptors_rename m phi psi W R P1 P2 sch). Qed.
+Print Assumptions C03_descriptors_renumbering.
